@@ -19,7 +19,7 @@ namespace {
 struct WPre { bool params_ok; int first_fail; int nwith; };
 
 template <class MockType>
-void do_call(MockType& m, int fn, int a0, int a1, Obs& o, int& argcell, std::string& strarg, const Tracked*& tracked, std::vector<int>& vecarg) {
+void do_call(MockType& m, int fn, int a0, int a1, Obs& o, int& argcell, std::string& strarg, const Tracked*& tracked, std::vector<Tracked>& vecarg) {
   switch (fn) {
     case FN_F1: o.value = m.f(a0); o.outcome = OC_RET_INT; break;
     case FN_F2: o.value = m.f(a0, a1); o.outcome = OC_RET_INT; break;
@@ -30,7 +30,7 @@ void do_call(MockType& m, int fn, int a0, int a1, Obs& o, int& argcell, std::str
     case FN_S: { strarg = std::to_string(a0); o.sval = m.s(strarg); o.outcome = OC_RET_STR; break; }
     case FN_K: { argcell = a0; const MockType& cm = m; const int& r = cm.k(argcell); o.refaddr = &r; o.outcome = OC_RET_REF; break; }  // value read later, only through an address we trust
     case FN_Z: m.z(); o.outcome = OC_RET_VOID; break;
-    case FN_V: { vecarg = {a0, a0 + 1, a0}; m.v(vecarg); o.outcome = OC_RET_VOID; break; }
+    case FN_V: { vecarg.clear(); vecarg.reserve(3); vecarg.emplace_back(a0); vecarg.emplace_back(a0 + 1); vecarg.emplace_back(a0); m.v(vecarg); o.outcome = OC_RET_VOID; break; }   // (built in place: no copy of an element is ours)
     case FN_P: { auto pr = m.p(a0); o.sval = "{ " + std::to_string(pr.first) + ", " + std::to_string(pr.second) + " }"; o.outcome = OC_RET_STR; break; }   // as the library prints a pair
     default: break;
   }
@@ -53,7 +53,7 @@ std::string ExecImpl::param_text(const MExp& e, int i, bool& negated) const {
   switch (m.kind) {
     case MK_ANY: return " matching _";
     case MK_TYPEDANY:
-      return std::string(" matching ANY(") + (k == 'i' ? "int" : k == 'r' ? "int&" : k == 'c' ? "const int&" : k == 's' ? "std::string&" : k == 'v' ? "const std::vector<int>&" : "std::unique_ptr<sim::Tracked>") + ")";
+      return std::string(" matching ANY(") + (k == 'i' ? "int" : k == 'r' ? "int&" : k == 'c' ? "const int&" : k == 's' ? "std::string&" : k == 'v' ? "const std::vector<sim::Tracked>&" : "std::unique_ptr<sim::Tracked>") + ")";
     case MK_VAL: case MK_EQ: return " == " + v;
     case MK_NE: return " != " + v;
     case MK_LT: return " < " + v;
@@ -201,14 +201,20 @@ void ExecImpl::op_call(const Op& op) {
   std::vector<int> newly_busy;
   for (int id : mset) if (busy_exps.insert(id).second) newly_busy.push_back(id);
   bool mock_newly_busy = busy_mocks.insert(mock).second;
-  int argcell = 0; std::string strarg; const Tracked* tracked = nullptr; std::vector<int> vecarg;
+  int argcell = 0; std::string strarg; const Tracked* tracked = nullptr; std::vector<Tracked> vecarg;
   long copies0 = Tracked::copies;
   const int top_tracer = M.tracers.empty() ? -1 : M.tracers.back();
   const int gen = M.ok_gen;
+  const bool in_handler = (op.a[5] & 1) != 0;   // the call is made while an exception is being handled (from inside a catch block)
+  if (in_handler) ++st.p_call_in_handler;
   try {
     RMock& r = rmocks[static_cast<size_t>(mock)];
-    if (r.kind) do_call(*r.m, fn, args[0], args[1], o, argcell, strarg, tracked, vecarg);
-    else do_call(*r.a, fn, args[0], args[1], o, argcell, strarg, tracked, vecarg);
+    auto go = [&]() {
+      if (r.kind) do_call(*r.m, fn, args[0], args[1], o, argcell, strarg, tracked, vecarg);
+      else do_call(*r.a, fn, args[0], args[1], o, argcell, strarg, tracked, vecarg);
+    };
+    if (in_handler) { try { throw unwind_probe{}; } catch (unwind_probe const&) { go(); } }
+    else go();
   }
   catch (fatal_report const&) { o.outcome = OC_THREW_FATAL; }
   catch (clause_fault const&) { o.outcome = OC_THREW_FAULT; }
@@ -407,7 +413,7 @@ void ExecImpl::op_call(const Op& op) {
       return;
     }
   }
-  if (o.tracked_copies != 0) { fail("C09", "no_copy", "a move-only argument's pointee was copied " + std::to_string(o.tracked_copies) + " times"); return; }
+  if (o.tracked_copies != 0) { fail("C09", "no_copy", "the object behind a move-only argument, or an element of a container argument, was copied " + std::to_string(o.tracked_copies) + " times on its way through the call"); return; }
   // reading an argument or a local in RETURN / LR_RETURN leaves the caller's object as it was (C09)
   if (fn == FN_S && strarg != std::to_string(args[0])) { fail("C09", "argument_modified", "the caller's std::string argument is '" + strarg + "' after the call, it was '" + std::to_string(args[0]) + "'; handled by " + describe_exp(cand)); return; }
   if (d.rk == RK_LRSTR_VAR && rexps[static_cast<size_t>(cand)].inst && rexps[static_cast<size_t>(cand)].inst->str != std::to_string(1000 + cand)) {
